@@ -251,11 +251,11 @@ func (env *stackEnv) build(s string) (ociregistry.Interface, string, error) {
 	case "sub":
 		env.subPrefix = "pfx/sub"
 		return ocifilter.Sub(args[0], env.subPrefix), rest, nil
-	case "funcs":
+	case "funcs", "funcsnr":
 		// the registry as a function table (*ociregistry.Funcs with every field set and an error constructor):
 		// a pass-through, and the shape other wrappers may recognise
 		x := args[0]
-		return &ociregistry.Funcs{
+		f := &ociregistry.Funcs{
 			NewError: func(ctx context.Context, methodName, repo string) error {
 				return fmt.Errorf("%s %s: %w", methodName, repo, ociregistry.ErrUnsupported)
 			},
@@ -265,7 +265,12 @@ func (env *stackEnv) build(s string) (ociregistry.Interface, string, error) {
 			MountBlob_: x.MountBlob, PushManifest_: x.PushManifest,
 			DeleteBlob_: x.DeleteBlob, DeleteManifest_: x.DeleteManifest, DeleteTag_: x.DeleteTag,
 			Repositories_: x.Repositories, Tags_: x.Tags, Referrers_: x.Referrers,
-		}, rest, nil
+		}
+		if name == "funcsnr" {
+			// a registry without range reads: GetBlobRange answers "unsupported"
+			f.GetBlobRange_ = nil
+		}
+		return f, rest, nil
 	case "ro":
 		return ocifilter.ReadOnly(args[0]), rest, nil
 	case "immw":
